@@ -15,6 +15,9 @@
 //	raw <hex>                           raw bytes the parser must reject (last field of the Tree)
 //	missing D...                        digests the CAS reports missing
 //	fault <callIndex> <code>            the CAS call with that index (FindMissing and Get counted together) fails
+//	acswap <D> read|fm                  the Action Cache entry is overwritten while the request is in flight: every read
+//	                                    after the first one (read) / every read after the first FindMissing on the CAS (fm)
+//	                                    returns the message with one more output file <D>
 //	composite whole | slice <off> <len> | fail <code>
 //	                                    read through GetFromComposite with a slicer that returns the parent, a byte
 //	                                    range of it, or (after reading the parent) an error of its own
@@ -147,6 +150,8 @@ type caseSpec struct {
 	trees         []*treeSpec
 	missing       []dtok
 	faults        map[int]int
+	swap          *dtok // non-nil: later reads of the AC return the message plus this output file
+	swapOnFM      bool
 	composite     string // "" (Get), whole, slice, fail
 	cargs         []int
 }
@@ -276,6 +281,16 @@ func parseSpec(script []string) (*caseSpec, error) {
 				return nil, bad
 			}
 			c.missing = append(c.missing, ds...)
+		case "acswap":
+			if len(w) != 3 || (w[2] != "read" && w[2] != "fm") {
+				return nil, bad
+			}
+			d, ok := parseD(w[1])
+			if !ok || d.kind == '-' {
+				return nil, bad
+			}
+			c.swap = &d
+			c.swapOnFM = w[2] == "fm"
 		case "composite":
 			want := map[string]int{"whole": 2, "slice": 4, "fail": 3}
 			if len(w) < 2 || want[w[1]] != len(w) {
@@ -342,6 +357,7 @@ type builtCase struct {
 	fn         digest.Function
 	ar         *remoteexecution.ActionResult
 	arSize     int
+	swapped    *remoteexecution.ActionResult
 	trees      map[int]*builtTree
 	byKey      map[string]*builtTree
 	order      []*builtTree // distinct digests, in definition order
@@ -642,6 +658,10 @@ func build(spec *caseSpec) (*builtCase, error) {
 	}
 	bc.ar = ar
 	bc.arSize = proto.Size(ar)
+	if spec.swap != nil {
+		bc.swapped = proto.Clone(ar).(*remoteexecution.ActionResult)
+		bc.swapped.OutputFiles = append(bc.swapped.OutputFiles, &remoteexecution.OutputFile{Path: "out/overwritten", Digest: bc.resolve(*spec.swap)})
+	}
 	for _, m := range spec.missing {
 		if dg := bc.resolve(m); dg != nil && m.kind != 'b' {
 			bc.missing[keyOf(dg.Hash, dg.SizeBytes)] = true
@@ -713,6 +733,9 @@ func (bc *builtCase) render() {
 				l = append(l, strings.Join(w, " "))
 			}
 		}
+	}
+	if bc.swapped != nil && s.acErr < 0 {
+		l = append(l, fmt.Sprintf("acswap %d %s", proto.Size(bc.swapped), bc.modelD(*s.swap)))
 	}
 	if len(bc.missing) > 0 {
 		w := []string{"missing"}
@@ -789,6 +812,7 @@ type recCAS struct {
 	checked    map[string]bool
 	readers    []*scriptedReader
 	unexpected string
+	fmSeen     bool
 }
 
 func (r *recCAS) GetCapabilities(ctx context.Context, instanceName digest.InstanceName) (*remoteexecution.ServerCapabilities, error) {
@@ -807,6 +831,7 @@ func (r *recCAS) showDigest(d digest.Digest) (int, int64, string) {
 func (r *recCAS) FindMissing(ctx context.Context, digests digest.Set) (digest.Set, error) {
 	i := r.idx
 	r.idx++
+	r.fmSeen = true
 	type ent struct {
 		id   int
 		size int64
@@ -902,6 +927,8 @@ type recAC struct {
 	gets       int
 	composites int
 	unexpected string
+	cas        *recCAS
+	firstBytes []byte // the message of the first read of this request, as marshaled for the buffer
 }
 
 func (a *recAC) GetCapabilities(ctx context.Context, instanceName digest.InstanceName) (*remoteexecution.ServerCapabilities, error) {
@@ -913,7 +940,14 @@ func (a *recAC) Get(ctx context.Context, d digest.Digest) buffer.Buffer {
 	if a.bc.spec.acErr >= 0 {
 		return buffer.NewBufferFromError(status.Error(codes.Code(a.bc.spec.acErr), "scripted Action Cache failure"))
 	}
-	return buffer.NewProtoBufferFromProto(proto.Clone(a.bc.ar), buffer.BackendProvided(func(bool) {}))
+	msg := a.bc.ar
+	if a.bc.swapped != nil && ((!a.bc.spec.swapOnFM && a.gets > 1) || (a.bc.spec.swapOnFM && a.cas.fmSeen)) {
+		msg = a.bc.swapped
+	}
+	if a.gets == 1 {
+		a.firstBytes, _ = proto.Marshal(msg)
+	}
+	return buffer.NewProtoBufferFromProto(proto.Clone(msg), buffer.BackendProvided(func(bool) {}))
 }
 
 // GetFromComposite behaves like every plain backend: slice what Get returns. The decorator must
@@ -993,7 +1027,7 @@ type observed struct {
 
 func runReal(bc *builtCase) (o observed) {
 	o.cas = &recCAS{bc: bc, checked: map[string]bool{}}
-	o.ac = &recAC{bc: bc}
+	o.ac = &recAC{bc: bc, cas: o.cas}
 	defer func() {
 		if p := recover(); p != nil {
 			o.outcome = "panic"
@@ -1018,14 +1052,14 @@ func runReal(bc *builtCase) (o observed) {
 		o.bytes = data
 		return
 	}
-	msg, err := ba.Get(context.Background(), actionDigest).ToProto(&remoteexecution.ActionResult{}, 1<<30)
+	data, err := ba.Get(context.Background(), actionDigest).ToByteSlice(1 << 30)
 	if err != nil {
 		o.code = status.Code(err)
 		o.outcome = fmt.Sprintf("error %d", int(o.code))
 		return
 	}
 	o.outcome = "result"
-	o.returned = msg
+	o.bytes = data
 	return
 }
 
@@ -1064,7 +1098,10 @@ type expectation struct {
 	arTooLarge  bool
 }
 
-func expect(bc *builtCase) expectation {
+func expect(bc *builtCase) expectation { return expectFor(bc, bc.ar, bc.arSize) }
+
+// expectFor evaluates what message ar references and what is wrong with it.
+func expectFor(bc *builtCase, ar *remoteexecution.ActionResult, arSize int) expectation {
 	e := expectation{refs: map[string]bool{}}
 	note := func(dg *remoteexecution.Digest) {
 		if dg == nil {
@@ -1078,12 +1115,12 @@ func expect(bc *builtCase) expectation {
 		e.refs[keyOf(d.GetHashString(), d.GetSizeBytes())] = true
 	}
 	var top []*remoteexecution.Digest
-	digestsIn(bc.ar.ProtoReflect(), &top)
+	digestsIn(ar.ProtoReflect(), &top)
 	for _, dg := range top {
 		note(dg)
 	}
 	var total int64
-	for _, od := range bc.ar.OutputDirectories {
+	for _, od := range ar.OutputDirectories {
 		if od.TreeDigest == nil {
 			e.noTree = true
 			continue
@@ -1123,7 +1160,7 @@ func expect(bc *builtCase) expectation {
 			}
 		}
 	}
-	e.arTooLarge = bc.arSize > bc.spec.maxMsg
+	e.arTooLarge = arSize > bc.spec.maxMsg
 	return e
 }
 
@@ -1136,6 +1173,8 @@ const (
 	whatFault       = "result returned although a CAS call of this request failed"
 	whatACFail      = "result returned although the Action Cache failed or the message exceeds the maximum size"
 	whatDiffers     = "returned message differs from the stored action result"
+	whatNotChecked  = "the message handed to the caller is not byte-identical to the message that was checked (the first Action Cache read of the request)"
+	whatACReads     = "the action cache was read more than once during one Get: the result returned is not the one checked"
 	whatBatch       = "FindMissing batch larger than the configured batch size"
 	whatNotFound    = "incomplete action result did not yield NOT_FOUND"
 	whatPanic       = "completeness checking panicked"
@@ -1159,6 +1198,17 @@ func oracle(bc *builtCase, o observed) (what, detail string) {
 		fail(whatUnexpected, o.cas.unexpected+o.ac.unexpected)
 	}
 	e := expect(bc)
+	// the property is about what the caller RECEIVED: parse it and evaluate the references of that message
+	var received *remoteexecution.ActionResult
+	if o.outcome == "result" && (bc.spec.composite == "" || bc.spec.composite == "whole") {
+		received = &remoteexecution.ActionResult{}
+		if err := proto.Unmarshal(o.bytes, received); err != nil {
+			fail(whatDiffers, "the returned bytes are not an ActionResult: "+err.Error())
+			received = nil
+		} else {
+			e = expectFor(bc, received, len(o.bytes))
+		}
+	}
 	lim := bc.spec.batch
 	if lim < 1 {
 		lim = 1
@@ -1203,14 +1253,9 @@ func oracle(bc *builtCase, o observed) (what, detail string) {
 			fail(whatUnchecked, fmt.Sprintf("never checked %v; calls %v", un, o.cas.calls))
 		}
 		switch bc.spec.composite {
-		case "":
-			if !proto.Equal(o.returned, bc.ar) {
+		case "", "whole":
+			if received != nil && !proto.Equal(received, bc.ar) {
 				fail(whatDiffers, "")
-			}
-		case "whole":
-			got := &remoteexecution.ActionResult{}
-			if proto.Unmarshal(o.bytes, got) != nil || !proto.Equal(got, bc.ar) {
-				fail(whatDiffers, "through GetFromComposite")
 			}
 		case "slice":
 			if full, err := proto.Marshal(bc.ar); err == nil {
@@ -1224,11 +1269,21 @@ func oracle(bc *builtCase, o observed) (what, detail string) {
 		}
 	}
 	// incomplete, nothing else wrong => exactly NOT_FOUND
+	if received != nil {
+		e = expect(bc)
+	}
 	if bc.spec.acErr < 0 && !e.arTooLarge && !o.cas.faultHit && !e.treeInvalid {
 		incomplete := len(missingRefs) > 0 || e.malformed || e.noTree || e.treeAbsent || e.treeBad || e.overBudget
 		if incomplete && o.outcome != fmt.Sprintf("error %d", int(codes.NotFound)) {
 			fail(whatNotFound, fmt.Sprintf("outcome %q; missing %v malformed=%v noTree=%v absent=%v overBudget=%v", o.outcome, missingRefs, e.malformed, e.noTree, e.treeAbsent, e.overBudget))
 		}
+	}
+	// weaker statements last, so that they do not hide what an extra read led to
+	if received != nil && !bytes.Equal(o.bytes, o.ac.firstBytes) {
+		fail(whatNotChecked, fmt.Sprintf("first read had %d output files, the caller received %d", len(bc.ar.OutputFiles), len(received.OutputFiles)))
+	}
+	if o.ac.gets != 1 {
+		fail(whatACReads, fmt.Sprintf("%d reads of the Action Cache", o.ac.gets))
 	}
 	return
 }
@@ -1296,6 +1351,9 @@ func runCase(run *hx.Run, model *hx.Model, name string, script []string, report 
 	res.outcome = o.outcome
 	res.ncalls = o.cas.idx
 	impl := o.outcome
+	if o.outcome != "panic" {
+		impl += fmt.Sprintf(" ac:%d", o.ac.gets)
+	}
 	if len(o.cas.calls) > 0 {
 		impl += " " + strings.Join(o.cas.calls, " ")
 	}
@@ -1351,6 +1409,9 @@ func runCase(run *hx.Run, model *hx.Model, name string, script []string, report 
 		}
 		if len(spec.faults) > 0 {
 			run.Count("with-fault")
+		}
+		if spec.swap != nil {
+			run.Count("with-ac-overwrite")
 		}
 		if spec.composite != "" {
 			run.Count("entry:GetFromComposite/" + spec.composite)
@@ -1756,7 +1817,8 @@ func TestC13(t *testing.T) {
 		"digests missing (<= 6 quick / <= 8 thorough, else singletons + random subsets), batch sizes 1..4, a CAS fault at every call index, every Tree shared by " +
 		"a second output directory of the other root-digest mode (listed before and after) with each child directory object absent, Trees cut/truncated/failing " +
 		"at boundary bytes (quick) or every byte (thorough); each message also through GetFromComposite (slicer returning the parent, a byte range, or failing), " +
-		"complete, with every single object missing and with a fault; plus raw byte strings through util.VisitProtoBytesFields. " +
+		"complete, with every single object missing and with a fault; each message with the Action Cache entry overwritten during the request " +
+		"(later reads return one more output file: absent, present, malformed); plus raw byte strings through util.VisitProtoBytesFields. " +
 		"A case is non-trivial when the action result references >= 2 distinct well-formed digests and the CAS is called; distinct by script hash")
 
 	// Oracle hits and disagreements have separate budgets: a change that makes model and
@@ -1857,6 +1919,17 @@ func TestC13(t *testing.T) {
 		}
 		if res.ncalls > 0 {
 			do(append(append([]string{}, base...), fmt.Sprintf("fault %d %d", r.Intn(res.ncalls), faultCodes[r.Intn(len(faultCodes))]), comps[r.Intn(2)]))
+		}
+		// the Action Cache entry is overwritten while the request is in flight: later reads return the
+		// message with one more output file, which is absent from the CAS / present / malformed
+		for _, when := range []string{"read", "fm"} {
+			do(append(append([]string{}, base...), "acswap f8.3 "+when, "missing f8.3"))
+			do(append(append([]string{}, base...), "acswap f8.3 "+when))
+			do(append(append([]string{}, base...), "acswap f8.3 "+when, "missing f8.3", comps[r.Intn(2)]))
+		}
+		do(append(append([]string{}, base...), "acswap bad:1 read"))
+		if len(u) > 0 {
+			do(append(append([]string{}, base...), "acswap f8.3 fm", missingLine([]dtok{u[r.Intn(len(u))]})))
 		}
 		// missing subsets
 		if len(u) <= maxSubsetRefs {
